@@ -1187,6 +1187,22 @@ func runDet3(m *Model, r *RuleResult) {
 				case *ssa.MakeSlice:
 					return true
 				case *ssa.Slice:
+					// own storage (added after seeded change C09g): a two-index window s[a:] / s[a:b] into a list that lives in an object
+					// other components see as well keeps that list's spare capacity - the next append to this component's list
+					// (phase 3 adds helper nodes and edge fragments) overwrites the first elements of the following component
+					if _, isArr := x.X.(*ssa.Alloc); !isArr && x.Max == nil && (x.Low != nil || x.High != nil) {
+						for _, o := range originsOf(x.X, 0) {
+							if o.Kind != "fieldload" {
+								continue
+							}
+							for _, bo := range originsOf(o.Base, 0) {
+								if bo.Kind != "fresh" {
+									why = "stored slice is a window (" + x.String() + ") into a list shared with the other components: it keeps the spare capacity behind it, so appending to this component's list overwrites the next component's elements"
+									return false
+								}
+							}
+						}
+					}
 					return okVal(x.X)
 				case *ssa.ChangeType:
 					return okVal(x.X)
